@@ -248,6 +248,14 @@ def impl_run(case):
                     if rc.get("inputs_col_vector"):
                         kw["inputs"] = {k: (a.reshape(-1, 1) if a.ndim == 1 else a) for k, a in kw["inputs"].items()}
                 import warnings as _w
+                if case.get("first_run"):
+                    # an earlier run on the *same template object* with other settings (default in_place=True); its result is discarded
+                    kw0 = dict(kw, **case["first_run"])
+                    try:
+                        c.run(**kw0)
+                    except Exception:
+                        from pyrates import clear_frontend_caches
+                        clear_frontend_caches()
                 with _w.catch_warnings(record=True) as wl:
                     _w.simplefilter("always")
                     res = c.run(**kw)
